@@ -245,8 +245,8 @@ def posterior_valid_and_bayes(model, stream, obs, emb, init, num_classes, seed, 
 @oracle
 def kernel_valid_and_bayes(weight, log_pdf, mask, eps):
     """log_pdf_to_affiliation itself"""
-    lp0 = log_pdf.copy()
-    g = mmu.log_pdf_to_affiliation(weight, log_pdf.copy(), source_activity_mask=mask, affiliation_eps=eps)
+    lp0 = log_pdf.copy(order='K')
+    g = mmu.log_pdf_to_affiliation(weight, log_pdf.copy(order='K'), source_activity_mask=mask, affiliation_eps=eps)
     if not np.array_equal(lp0, log_pdf):
         return Fail('kernel-input-modified', 'log_pdf_to_affiliation changed its log_pdf argument')
     w = np.broadcast_to(weight, lp0.shape)
@@ -387,7 +387,7 @@ def fixed_defect_cases(rng):
     sal[:, 4] = 0
     for name in ('gcacgmm', 'vmfcacgmm'):
         for wca in ((-3,), (-1,)):
-            s2 = sal.copy()
+            s2 = sal.copy(order='K')
             if wca == (-1,):
                 s2[:] = rng.random((F, T)) + 0.1
                 s2[1, :] = 0
@@ -649,7 +649,7 @@ def _corr_kernel(ctx):
     out = run_driver(lines, exe=EXE)
     worst = 0.0
     for (w, lp, mask, eps, kind), o in zip(metas, out):
-        want = mmu.log_pdf_to_affiliation(w[:, None], lp[:, None].copy(),
+        want = mmu.log_pdf_to_affiliation(w[:, None], lp[:, None].copy(order='K'),
                                           source_activity_mask=None if mask is None else mask[:, None],
                                           affiliation_eps=eps)[:, 0]
         got = parse_floats(o)
